@@ -45,6 +45,8 @@ pub struct Model<'a> {
     pub trailing_newline: bool,
     memo: BTreeMap<usize, Result<FileOut, SpecErr>>,
     in_progress: Vec<usize>,
+    /// per file being processed: sources already named by an include/after line above
+    declared: Vec<Vec<usize>>,
 }
 
 fn norm_endings(text: &str, le: &str) -> String {
@@ -83,6 +85,7 @@ impl<'a> Model<'a> {
             trailing_newline,
             memo: BTreeMap::new(),
             in_progress: vec![],
+            declared: vec![],
         }
     }
 
@@ -114,6 +117,9 @@ impl<'a> Model<'a> {
             };
         }
         if let Some(j) = self.a.by_out.get(&target).copied() {
+            if let Some(d) = self.declared.last_mut() {
+                d.push(j);
+            }
             let r = self.process(j)?;
             if !r.exact {
                 return Err(SpecErr::Unknown(format!(
@@ -150,6 +156,10 @@ impl<'a> Model<'a> {
                     Some(j) => j,
                     None => return Err(SpecErr::Unknown(format!("cat of unknown source {src}"))),
                 };
+                // 4.3 item 11: a command may read X only below an `after X` / `include X` line
+                if !self.declared.last().map(|d| d.contains(&j)).unwrap_or(false) {
+                    return Err(SpecErr::Unknown("cat of an output that no line above declares as dependency".into()));
+                }
                 let r = self.process(j)?;
                 if !r.exact {
                     return Err(SpecErr::Unknown("cat of an output with unspecified end".into()));
@@ -168,7 +178,9 @@ impl<'a> Model<'a> {
             return Err(SpecErr::Error("dependency cycle".into()));
         }
         self.in_progress.push(i);
+        self.declared.push(vec![]);
         let r = self.process_inner(i);
+        self.declared.pop();
         self.in_progress.pop();
         self.memo.insert(i, r.clone());
         r
@@ -294,6 +306,9 @@ impl<'a> Model<'a> {
                             return Err(SpecErr::Unknown("after of a missing target".into()));
                         }
                         if let Some(j) = self.a.by_out.get(&t).copied() {
+                            if let Some(dd) = self.declared.last_mut() {
+                                dd.push(j);
+                            }
                             // the dependency must itself build
                             self.process(j)?;
                         }
